@@ -230,6 +230,14 @@ class SimTransport(asyncio.Transport):
         if self._closing:
             return
         self._closing = True
+        if getattr(self, "_graceful", False) and self._stalled and self._buffer:
+            # what a selector transport does: a graceful close goes on sending what is
+            # buffered and closes the connection once the buffer is empty - i.e. when the
+            # peer reads again (stall(graceful=True); the default discards, see below)
+            self._close_pending = True
+            self.conn.net.log.add("NET.close_pending", conn=self.conn.id,
+                                  buffered=sum(len(c) for c, _, _ in self._buffer))
+            return
         self.conn.on_client_close(fault=False)
         # (a stalled buffer is discarded: scripts never close while stalled
         # without a reset; see DESIGN.md §2.2)
@@ -294,9 +302,12 @@ class SimTransport(asyncio.Transport):
         self._force_close(exc or ConnectionResetError(104, "Connection reset by peer"))
         return True
 
-    def stall(self):
-        """Peer stops reading: further writes are buffered, drain() suspends."""
+    def stall(self, graceful=False):
+        """Peer stops reading: further writes are buffered, drain() suspends.
+        graceful: a close() by the client while stalled keeps the buffer and completes when the
+        peer reads again (unstall), as on a real transport."""
         self._stalled = True
+        self._graceful = graceful
         self.conn.net.log.add("NET.stall", conn=self.conn.id)
 
     def unstall(self):
@@ -312,6 +323,12 @@ class SimTransport(asyncio.Transport):
                 self.conn.net.log.add("NET.write_mutated", conn=self.conn.id, n=n,
                                       written=copy, sent=actual)
             self.conn.console_receive(actual)
+        if getattr(self, "_close_pending", False):
+            self._close_pending = False
+            self.conn.on_client_close(fault=False)
+            self._conn_lost += 1
+            self._loop.call_soon(self._call_connection_lost, None)
+            return
         if self._proto_paused and not self._conn_lost:
             self._proto_paused = False
             self._protocol.resume_writing()
